@@ -1283,3 +1283,104 @@ fn infinite_collect_cases(thorough: bool, f: &mut dyn FnMut(Case)) {
         }
     }
 }
+
+// ---- (j) deferred self-capture family (F-C02-8 / F-C02-10 / F-C05-12 / F-C06-33): function literals that
+//          reference the id being assigned from NON-direct positions of the right-hand side, each then
+//          called; and Koto-implemented operators called many times in a loop (register residue) ---------
+
+fn deferred_capture_cases(f: &mut dyn FnMut(Case)) {
+    let api = vec!["gen:deferred-capture".to_string()];
+    // the function literal: L = references f, N = does not; `{caps}` = other captured ids
+    let lit = |refs_f: bool, caps: usize, f_first: bool, generator: bool| -> String {
+        let others: Vec<&str> = ["x", "y", "z"].iter().take(caps).copied().collect();
+        let rec = if refs_f { "(if n <= 0 then 0 else f(n - 1))" } else { "n" };
+        let mut terms: Vec<String> = others.iter().map(|s| s.to_string()).collect();
+        if f_first { terms.insert(0, rec.to_string()) } else { terms.push(rec.to_string()) }
+        let body = terms.join(" + ");
+        if generator { format!("(|n| yield {})", body) } else { format!("(|n| {})", body) }
+    };
+    // right-hand sides: A and B are function literals
+    let forms: &[&str] = &[
+        "A", "(A)", "((A))", "if c then A else B", "if not c then A else B", "if c then A", "A or B", "c and A or B", "not c and A or B",
+        "[A, B]", "(A, B)", "{g: A, h: B}", "id(A)", "id(id(A))", "pick(c, A, B)", "pick(not c, A, B)", "(|g| g)(A)", "[A][0]", "(B, A)[1]", "{g: A}.g",
+        "match c\n  true then A\n  else B", "match c\n  false then A\n  else B", "switch\n  c then A\n  else B", "switch\n  not c then A\n  else B",
+        "try\n  A\ncatch e\n  B", "try\n  throw 1\ncatch e\n  A", "|| A", "|k = A| k", "(A)(0) + 0", "'{A}'", "A.bind? 1", "copy A", "(1..3).each(A).to_tuple()",
+    ];
+    let calls: &[&str] = &["f 1", "f(2)", "f[0](1)", "f[1](1)", "f.g(1)", "f.h 1", "f()(1)", "f()", "(f 1).to_tuple()", "f.to_tuple()", "size f", "g = f\nf = null\ng 1"];
+    // (the last entry is a statement sequence: rebinding the id after the capture was made)
+    for c in ["true", "false"] {
+        for form in forms {
+            for caps in 0..=3usize {
+                for f_first in [true, false] {
+                    for generator in [false, true] {
+                        // A references f; B references f or not
+                        for b_refs in [false, true] {
+                            if !form.contains('B') && b_refs {
+                                continue;
+                            }
+                            let a = lit(true, caps, f_first, generator);
+                            let b = lit(b_refs, (caps + 1) % 4, !f_first, generator);
+                            let rhs = form.replace('A', &a).replace('B', &b);
+                            let assign = if rhs.contains('\n') {
+                                format!("f = {}", rhs.replace('\n', "\n  ").replacen("\n  ", "\n  ", 1))
+                            } else {
+                                format!("f = {}", rhs)
+                            };
+                            let mut text = format!("x = 10\ny = 20\nz = 30\nc = {}\nid = |v| v\npick = |k, p, q| if k then p else q\n{}\nr = []\n", c, assign);
+                            for call in calls {
+                                match call.rsplit_once('\n') {
+                                    Some((pre, last)) => text.push_str(&format!("try\n  {}\n  r.push({})\ncatch e\n  r.push 'err'\n", pre.replace('\n', "\n  "), last)),
+                                    None => text.push_str(&format!("try\n  r.push({})\ncatch e\n  r.push 'err'\n", call)),
+                                }
+                            }
+                            text.push_str("size r\n");
+                            f(Case { kind: 'R', text, group: "deferred-capture", apis: api.clone() });
+                        }
+                    }
+                }
+            }
+        }
+    }
+    // the same inside a function body (locals instead of top-level ids), one call style per case
+    for form in forms {
+        for call in ["f 1", "f[0](1)", "f.g(1)", "f()(1)"] {
+            let a = lit(true, 2, true, false);
+            let b = lit(true, 1, false, false);
+            let rhs = form.replace('A', &a).replace('B', &b);
+            let text = format!("outer = |c|\n  x = 10\n  y = 20\n  z = 30\n  id = |v| v\n  pick = |k, p, q| if k then p else q\n  f = {}\n  {}\nr = []\nfor c in (true, false)\n  try\n    r.push outer(c)\n  catch e\n    r.push 'err'\nsize r\n", rhs.replace('\n', "\n    "), call);
+            f(Case { kind: 'R', text, group: "deferred-capture", apis: api.clone() });
+        }
+    }
+    // Koto-implemented operators / protocols called many times from one frame (register residue):
+    // every overridable operator, as statement and as compound assignment, in for / while / loop
+    let ops: &[(&str, &str)] = &[
+        ("@+", "v = v + 1"), ("@-", "v = v - 1"), ("@*", "v = v * 2"), ("@/", "v = v / 2"), ("@%", "v = v % 2"), ("@^", "v = v ^ 2"),
+        ("@r+", "v = 1 + v"), ("@r-", "v = 1 - v"), ("@r*", "v = 2 * v"), ("@+=", "v += 1"), ("@-=", "v -= 1"), ("@*=", "v *= 2"),
+        ("@<", "b = v < 1"), ("@<=", "b = v <= 1"), ("@>", "b = v > 1"), ("@>=", "b = v >= 1"), ("@==", "b = v == 1"), ("@!=", "b = v != 1"),
+        ("@negate", "v = -v"), ("@index", "b = v[1]"), ("@call", "b = v(1)"), ("@size", "b = size v"), ("@display", "b = '{v}'"),
+        ("@index_mut", "v[1] = 2"), ("@access", "b = v.foo"), ("@iterator", "for q in v\n    break"),
+    ];
+    for (key, stmt) in ops {
+        let args = if matches!(*key, "@negate" | "@size" | "@display" | "@iterator") { "||" } else if *key == "@index_mut" { "|i, x|" } else { "|other|" };
+        let ret = match *key {
+            "@<" | "@<=" | "@>" | "@>=" | "@==" | "@!=" => "true",
+            "@size" => "3",
+            "@display" => "'v'",
+            "@iterator" => "(1, 2)",
+            _ => "self",
+        };
+        for (lname, header, footer) in [("for", "for i in 0..N", ""), ("while", "i = 0\nwhile i < N\n  i += 1", ""), ("loop", "i = 0\nloop\n  i += 1\n  if i > N\n    break", "")] {
+            for n in [100usize, 300, 1000] {
+                for in_fn in [false, true] {
+                    let body = format!("{}\n  {}{}", header.replace('N', &n.to_string()), stmt, footer);
+                    let text = if in_fn {
+                        format!("v =\n  {}: {} {}\nw = ||\n  {}\n  1\nw()\n", key, args, ret, body.replace('\n', "\n  "))
+                    } else {
+                        format!("v =\n  {}: {} {}\n{}\n1\n", key, args, ret, body)
+                    };
+                    f(Case { kind: 'R', text, group: "operator-loop", apis: vec![format!("meta:{}", key), format!("gen:operator-loop:{}", lname)] });
+                }
+            }
+        }
+    }
+}
